@@ -20,8 +20,18 @@ TRUSTED = ["reference desugaring in props/c19.py (20 lines, from the documentati
 ASSUMPTIONS = ["all children exit 0; same symbolic-free clock for both runs"]
 
 NAMES = ("a", "b", "a", "g", "x", "bad name", "c")       # index 2 repeats "a"; "g" is the group's name; "x" is another task
-ARGS = (None, [1, "two"], [])
-OPTS = (None, {"k": 3, "flag": True})
+class Lit:
+    """A value rendered literally in both forms (explicitly passed, possibly ill-typed)."""
+
+    def __init__(self, src):
+        self.src = src
+
+    def __repr__(self):
+        return self.src
+
+
+ARGS = (None, [1, "two"], [], Lit("None"), Lit("()"))
+OPTS = (None, {"k": 3, "flag": True}, Lit("None"), Lit("[]"))
 DEPS = ([], [":x"], [":x", ":y"])
 
 
@@ -65,6 +75,7 @@ def reference_expansion(insts, chain, deps, special):
             d.append(":" + prev)
         lines.append("run_experiment(name=%r, run='./r.sh', parallelizable=%r, args=%r, options=%r, deps=%r)" % (
             i["name"], i["par"], i["args"] if i["args"] is not None else [], i["options"] if i["options"] is not None else {}, d))
+        # (an explicitly passed value, well-typed or not, is handed to run_experiment() as it is)
         prev = i["name"]
     lines.append("combine(name='g', deps=%r)" % ([":" + i["name"] for i in insts],))
     return "\n".join(lines) + "\n"
@@ -73,11 +84,11 @@ def reference_expansion(insts, chain, deps, special):
 COMMON = "run_command(name='x', run='true')\nrun_command(name='y', run='true')\n"
 
 
-def load_map(root):
+def load_map(root, target="//:g"):
     from conductor.context import Context
     from conductor.task_identifier import TaskIdentifier
     ctx = Context(root)
-    ctx.task_index.load_transitive_closure(TaskIdentifier.from_str("//:g"))
+    ctx.task_index.load_transitive_closure(TaskIdentifier.from_str(target))
     out = {}
     for ident, t in ctx.task_index.get_all_loaded_tasks().items():
         out[str(ident)] = (type(t).__name__, [str(d) for d in t.deps],
@@ -86,19 +97,23 @@ def load_map(root):
     return out
 
 
-def run_project(g, text, tag):
+def run_project(g, text, tag, second_file=False):
     import conductor.cli.run as cli_run
     proj = hrun.Project()
-    proj.write("COND", COMMON + text)
+    proj.write("COND", COMMON + text + ("group(name='top', deps=[':g', '//b:g'])\n" if second_file else ""))
+    if second_file:
+        # the same definition (same instance names) in a second COND file loaded by the same command
+        proj.write("b/COND", COMMON + text)
     sched = graphs.SymSched(g, all_ok=True, on_spawn=graphs.output_writer)
-    chk = hrun.invoke(cli_run.main, hrun.run_ns(task_identifier="//:g", check=True), str(proj.root), fakeos.Kernel(sched, clock=fakeos.Clock()))
+    target = "//:top" if second_file else "//:g"
+    chk = hrun.invoke(cli_run.main, hrun.run_ns(task_identifier=target, check=True), str(proj.root), fakeos.Kernel(sched, clock=fakeos.Clock()))
     info = {"proj": proj, "check_status": chk.status, "error": chk.error_class, "check_spawns": len(chk.kernel.tasks())}
     if chk.status == 0:
         holder = {}
-        r = hrun.invoke(lambda _: holder.update(map=load_map(proj.root)), None, str(proj.root), fakeos.Kernel(fakeos.Sched()))
+        r = hrun.invoke(lambda _: holder.update(map=load_map(proj.root, target)), None, str(proj.root), fakeos.Kernel(fakeos.Sched()))
         info["map"] = holder.get("map")
         kern = fakeos.Kernel(graphs.SymSched(g, all_ok=True, on_spawn=graphs.output_writer), clock=fakeos.Clock(lambda i: 2000.0))
-        res = hrun.invoke(cli_run.main, hrun.run_ns(task_identifier="//:g", jobs=2), str(proj.root), kern)
+        res = hrun.invoke(cli_run.main, hrun.run_ns(task_identifier=target, jobs=2), str(proj.root), kern)
         info["run_status"] = res.status
         root = str(proj.root)
         info["trace"] = [(p.name, p.snapshot["argv"][2], p.env.get("COND_DEPS", "").replace(root, "<root>"),
@@ -108,24 +123,26 @@ def run_project(g, text, tag):
     return info
 
 
-def make(maxinst, args_pool=ARGS, names=NAMES):
+def make(maxinst, args_pool=ARGS, names=NAMES, opts_pool=OPTS, two_files_bit=False, specials=5):
     def fn(g):
         n = g.choose("ninst", maxinst + 1)            # 0..maxinst instances
         insts = []
         for i in range(n):
             insts.append({"name": names[g.choose("name%d" % i, len(names))], "args": args_pool[g.choose("args%d" % i, len(args_pool))],
-                          "options": OPTS[g.choose("opts%d" % i, len(OPTS))], "par": g.flag("par%d" % i)})
+                          "options": opts_pool[g.choose("opts%d" % i, len(opts_pool))], "par": g.flag("par%d" % i)})
         chain = g.flag("chain")
         deps = DEPS[g.choose("deps", len(DEPS))]
         if not deps and g.flag("deps_omitted"):
             deps = None
-        special = ("", "non-instance", "none-experiments", "generator", "tuple")[g.choose("special", 5)]
+        special = ("", "non-instance", "none-experiments", "generator", "tuple")[g.choose("special", specials)] if specials > 1 else ""
         gtext = group_form(insts, chain, deps, special)
         etext = reference_expansion(insts, chain, deps, special)
-        A = run_project(g, gtext, "group")
-        B = run_project(g, etext, "explicit") if etext is not None else None
+        two_files = g.flag("second_cond_file") if two_files_bit else False
+        A = run_project(g, gtext, "group", two_files)
+        B = run_project(g, etext, "explicit", two_files) if etext is not None else None
         try:
-            D = "group form: %s | explicit form: %s" % (gtext.strip(), (etext or "<no expansion>").strip().replace("\n", "; "))
+            D = "group form: %s | explicit form: %s%s" % (gtext.strip(), (etext or "<no expansion>").strip().replace("\n", "; "),
+                                                         " | the same definitions also in //b/COND, target //:top" if two_files else "")
             for X in (A, B):
                 if X is not None and isinstance(X["check_status"], str):
                     g.require(False, "group:crash:" + X["check_status"], D)
@@ -157,7 +174,13 @@ def make(maxinst, args_pool=ARGS, names=NAMES):
 
 def spaces(tier):
     goals = ["both forms rejected", "chained instances accepted", "shared deps accepted"]
-    sp = [Space("inst2", make(2, args_pool=ARGS[:2], names=NAMES[:6]), "0..2 instances; names from {a, b, a again, group's own name, another task's name, invalid}; args 2, "
+    sp = [Space("inst2-iterables", make(2, args_pool=ARGS[:2], opts_pool=OPTS[:1], names=("a", "b", "a"), specials=5),
+                "0..2 instances from {a, b, a again}; experiments given as list | list with a non-instance | None | one-shot generator | tuple",
+                depth=6),
+          Space("inst1-explicit-values-two-files", make(1, args_pool=ARGS, opts_pool=OPTS, names=("a",), two_files_bit=True, specials=1),
+                "0..1 instance; args from {omitted, list, [], explicit None, explicit ()}, options from {omitted, dict, explicit None, "
+                "explicit []}; chain bit; deps; the same definitions optionally also in a second COND file of the same command", depth=6),
+          Space("inst2", make(2, args_pool=ARGS[:2], opts_pool=OPTS[:2], names=NAMES[:6], specials=3), "0..2 instances; names from {a, b, a again, group's own name, another task's name, invalid}; args 2, "
                 "options 2, parallelizable bit per instance; chain bit; deps {omitted, [], [:x], [:x,:y]}; {ok, non-instance element, "
                 "experiments=None, one-shot generator, tuple}", depth=6, goals=goals, outside=[">3 instances"])]
     if tier == "thorough":
